@@ -36,8 +36,8 @@ enum {
 };
 const std::vector<const char*> FIELDS = {VERIF_SCHED_FIELDS, "variant", "t0", "t1", "t2", "t3", "execs", "ninit", "fanout",
                                          "depth", "nobj", "maxnh", "delay", "breakat", "pseed"};
-static const char* VARIANTS[] = {"plain", "det_id", "fixed_neighborhood", "local_state", "det_parallel_break", "per_iter_alloc"};
-constexpr int NVAR            = 6;
+static const char* VARIANTS[] = {"plain", "det_id", "fixed_neighborhood", "local_state", "det_parallel_break", "per_iter_alloc", "det_id_wide"};
+constexpr int NVAR            = 7;
 
 Case generate() {
   using namespace rc;
@@ -172,6 +172,11 @@ struct DetOp {
 struct IdFn {
   uintptr_t operator()(const fe::Item& i) const { return (uintptr_t)i.id; }
 };
+// ids above 2^32 whose low 32 bits collide for many items ("(partition << 32) | index" style): unique and
+// stable, which is all an id function has to be
+struct IdFnWide {
+  uintptr_t operator()(const fe::Item& i) const { return ((uintptr_t)i.id << 32) | (uintptr_t)(verif::prf(77, i.id) & 7); }
+};
 struct BreakFn {
   bool operator()() const { return committed_count >= break_at; }
 };
@@ -193,6 +198,9 @@ static void run_variant(int variant, std::vector<fe::Item>& init) {
     break;
   case 4:
     galois::for_each(galois::iterate(init), DetOp<false, false>(), galois::wl<DWL>(), galois::det_parallel_break<BreakFn>());
+    break;
+  case 6:
+    galois::for_each(galois::iterate(init), DetOp<false, false>(), galois::wl<DWL>(), galois::det_id<IdFnWide>());
     break;
   default:
     galois::for_each(galois::iterate(init), DetOp<false, true>(), galois::wl<DWL>(), galois::per_iter_alloc());
